@@ -354,12 +354,12 @@ def sequences(kind, maxlen):
 
 
 def bounds(tier):
-    return {"kinds": list(KINDS), "max_len": 3 if tier == "quick" else 5, "alphabets": {k: [str(x) for x in (v or ["1..n"])] for k, v in KINDS.items()},
-            "string_fn_alphabet": ["a", "b", ",", " ", "\\n"], "string_fn_max_len": 4 if tier == "quick" else 6}
+    return {"kinds": list(KINDS), "max_len": 4 if tier == "quick" else 5, "alphabets": {k: [str(x) for x in (v or ["1..n"])] for k, v in KINDS.items()},
+            "string_fn_alphabet": ["a", "b", ",", " ", "\\n"], "string_fn_max_len": 5 if tier == "quick" else 6}
 
 
 def cases(tier, shard, nshards):
-    maxlen = 3 if tier == "quick" else 5
+    maxlen = 4 if tier == "quick" else 5
     cnt = 0
     for kind in KINDS:
         for xs in sequences(kind, maxlen):
@@ -371,7 +371,7 @@ def cases(tier, shard, nshards):
                 if exp is None:
                     continue
                 yield Case(src, {"fn": name, "kind": kind, "n": len(xs), "exp": exp if exp == RAISE else list(exp)})
-    smax = 4 if tier == "quick" else 6
+    smax = 5 if tier == "quick" else 6
     for L in range(0, smax + 1):
         for t in itertools.product(["a", "b", ",", " ", "\n"], repeat=L):
             cnt += 1
